@@ -366,3 +366,9 @@ for p in ["C11", "C02"]:
     CHECKS[p]["harnesses"].append(H_FSMPOS)
 
 CHECKS["C07"]["harnesses"].append(H_TRANSFER)
+
+H_RUNSNAP = {"fn": "vh_run_snapshots", "what": "runSnapshots serving one user snapshot request with the real FSM goroutine and follower loop; FSM snapshot/persist faults", "bounds": "W=2", "covers": ["usersnapshot.ok", "usersnapshot.failed"]}
+for p in ["C17", "C11"]:
+    CHECKS[p]["harnesses"].append(H_RUNSNAP)
+for p in ["C17", "C08", "C09"]:
+    CHECKS[p]["harnesses"].append(H_CAND_TIMEOUT)
